@@ -165,7 +165,8 @@ def filter_(outdir, jobs):
             if rc != 0:
                 m["survives"] = False; m["why"] = "does not apply"; continue
             rc, out = sh("cargo build --offline 2>&1 | tail -3", cwd=wt, env=env, timeout=1200)
-            rc, out = sh("cargo nextest run --workspace --no-fail-fast --offline --test-threads 4 2>&1 | tail -5", cwd=wt, env=env, timeout=1800)
+            # a mutant may allocate without bound: cap the address space of the test processes (12 GB)
+            rc, out = sh("ulimit -v 12000000; cargo nextest run --workspace --no-fail-fast --offline --test-threads 4 2>&1 | tail -5", cwd=wt, env=env, timeout=1800)
             mm = re.search(r"(\d+) passed", out)
             failed = re.search(r"(\d+) failed", out) or re.search(r"(\d+) timed out", out)
             if mm and int(mm.group(1)) == 59 and not failed:
